@@ -114,9 +114,20 @@ func runC17(c *Ctx, w *World, r *Report) {
 	sP, eP := ssa.Value(dfs.Params[0]), ssa.Value(dfs.Params[1])
 	sL, eL := fa.Lin(sP), fa.Lin(eP)
 
+	// the whole list may be converted to bytes once, in place, before the recursion starts
+	// (for i := range firstDiffs { firstDiffs[i] >>= 3 }): its elements are then byte counts as read.
+	preConv := c17PreConverted(w, fn)
+
 	// helper: candidate = firstDiffs[iv]>>3
 	candIV := func(v ssa.Value) (*LoopIV, string) {
 		x, cc, ok := asShiftRight(v)
+		if preConv {
+			if _, _, isLoad := asElemLoad(v); isLoad {
+				x, cc, ok = v, 3, true
+			} else {
+				ok = false
+			}
+		}
 		if !ok || cc != 3 {
 			return nil, "a firstDiffs value is used without the bits-to-bytes conversion >>3"
 		}
@@ -167,7 +178,18 @@ func runC17(c *Ctx, w *World, r *Report) {
 			}
 			nuse++
 			for _, ref := range *ld.Referrers() {
-				if _, cc, ok := asShiftRight(ref.(ssa.Value)); !ok || cc != 3 {
+				rv, isVal := ref.(ssa.Value)
+				if preConv {
+					if isVal {
+						if _, _, ok := asShiftRight(rv); ok {
+							bad = "firstDiffs was converted to bytes in place, yet its element is shifted again at " + w.InstrPos(ref)
+						}
+					}
+					continue
+				}
+				if !isVal {
+					bad = "firstDiffs element used at " + w.InstrPos(ref) + " without >>3"
+				} else if _, cc, ok := asShiftRight(rv); !ok || cc != 3 {
 					bad = "firstDiffs element used at " + w.InstrPos(ref) + " without >>3"
 				}
 			}
@@ -560,6 +582,31 @@ func runC17(c *Ctx, w *World, r *Report) {
 		}
 		r.Check(bad == "", "R-SPLIT", "sigbits.ShardByPrefix", w.Pos(dfs.Pos()), bad, "split at i+1 for minimal firstDiffs[i]>>3 over [s,e-1), reset on <, extend on ==, close with e; dfs(s,end), s=end")
 	}
+}
+
+// c17PreConverted: ShardByPrefix converts every element of the firstDiffs list from bits to bytes in place, once,
+// in its own body (a loop over the whole list storing firstDiffs[i]>>3 back into firstDiffs[i]).
+func c17PreConverted(w *World, fn *ssa.Function) bool {
+	al := c17Cells["firstDiffs"]
+	if al == nil {
+		return false
+	}
+	rs := inPlaceRescale(fn)[al]
+	if rs == nil || !rs.cell || rs.c != 3 || len(rs.stores) != 1 {
+		return false
+	}
+	fa := w.FA(fn)
+	for st := range rs.stores {
+		ia := st.Addr.(*ssa.IndexAddr)
+		iv, ok := fa.InductionOf(ia.Index, st.Block())
+		if !ok || !iv.FirstConst || iv.First != 0 || iv.Step != 1 || !iv.HasN || !iv.N.Eq(fa.lenOf(ia.X, 0)) {
+			return false
+		}
+		if fa.earlyExit(iv) != "" {
+			return false
+		}
+	}
+	return true
 }
 
 func loadOfCell(fn *ssa.Function, name string) ssa.Value {
